@@ -175,6 +175,90 @@ def _file(r):
     return ('nohost',)
 
 
+# ---------------------------------------------------------------------------------------------- the use sites (real handlers)
+
+class Session(dict):
+    """stands for aiohttp_session.Session"""
+
+
+class FlowResult:
+    login_id = 'login-1'
+    unverified_email = 'u@example.org'
+    organization_id = None
+
+
+class FakeFlow:
+    def initiate_flow(self, redirect_uri):
+        return {'authorization_url': 'https://accounts.idp.example/authorize', 'state': 'st'}
+
+    def receive_callback(self, request, flow_dict):
+        return FlowResult()
+
+    def organization_id(self):
+        return None
+
+
+class FakeDB:
+    async def select_and_fetchall(self, sql, args=None, **kw):
+        yield {'id': 7, 'state': 'active', 'username': 'alice', 'login_id': 'login-1', 'is_developer': 0}
+
+
+async def run_handlers(A, s):
+    """Drive the four real handlers that consume a next-page URL.  For each: the HTTP outcome, the Location header if a
+    redirect was raised, and what ended up in session['next']."""
+    import aiohttp_session
+    from aiohttp.test_utils import make_mocked_request
+    import urllib.parse
+    out = {}
+
+    async def fake_create_session(db, user_id, *a, **k):
+        return 'sid-1'
+    A.create_session = fake_create_session
+    A.set_message = lambda *a, **k: None
+    for name in ('login', 'signup', 'callback', 'creating_account'):
+        session = Session()
+        if name == 'callback':
+            session.update({'flow': {'state': 'st'}, 'caller': 'login', 'next': s})
+        if name == 'creating_account':
+            session.update({'pending': True, 'login_id': 'login-1', 'next': s})
+
+        async def get_session(request, _s=session):
+            return _s
+        aiohttp_session.get_session = get_session
+        aiohttp_session.new_session = get_session
+        app = {A.AppKeys.FLOW_CLIENT: FakeFlow(), A.AppKeys.DB: FakeDB()}
+        path = '/' + name + ('?next=' + urllib.parse.quote(s, safe='') if name in ('login', 'signup') else '')
+        try:
+            req = make_mocked_request('GET', path, app=app)
+            if name in ('login', 'signup') and req.query.get('next') != s:
+                out[name] = {'outcome': 'untransportable'}       # the string cannot be carried in a query parameter
+                continue
+        except Exception as e:  # noqa
+            out[name] = {'outcome': 'untransportable:' + type(e).__name__}
+            continue
+        handler = getattr(A, name)
+        try:
+            if name == 'creating_account':
+                # skip the maybe_authenticated_user layer (needs the auth database); the handler body is what consumes `next`
+                f = handler
+                while hasattr(f, '__wrapped__'):
+                    f = f.__wrapped__
+                resp = await f(req, None)
+            else:
+                resp = await handler(req)
+            o = {'outcome': 'ok:%s' % getattr(resp, 'status', '?')}
+        except web.HTTPFound as e:
+            loc = e.headers.get('Location', '')
+            o = {'outcome': 'redirect', 'location': [ord(c) for c in loc], 'twin': list(whatwg_host(loc))}
+        except web.HTTPException as e:
+            o = {'outcome': 'http:%d' % e.status}
+        except Exception as e:  # noqa
+            o = {'outcome': 'exc:' + type(e).__name__}
+        o['session_next'] = [ord(c) for c in session['next']] if 'next' in session else None
+        out[name] = o
+    return out
+
+
 # ---------------------------------------------------------------------------------------------- real code
 
 def main():
@@ -206,7 +290,15 @@ def main():
             loc_cp = type(e).__name__
             twin_loc = None
         out.append({'netloc': nl, 'accepted': acc, 'location': loc_cp, 'twin_raw': list(whatwg_host(s)), 'twin_location': twin_loc})
-    json.dump({'results': out, 'allowed': allowed}, sys.stdout)
+    handlers = []
+    if req.get('handler_strings'):
+        import asyncio
+        loop = asyncio.new_event_loop()
+        asyncio.set_event_loop(loop)
+        for cps in req['handler_strings']:
+            s = ''.join(chr(c) for c in cps)
+            handlers.append(loop.run_until_complete(run_handlers(A, s)))
+    json.dump({'results': out, 'allowed': allowed, 'handlers': handlers}, sys.stdout)
 
 
 if __name__ == '__main__':
